@@ -11,9 +11,16 @@ package transport
 //@   ensures written(b)
 //@   ensures err == nil ==> n == len(b)
 
+// a read delivers some next chunk of the client's byte stream, of arbitrary length (C08: every segmentation)
 //@ iface transport.Transport.ReadPacket() (n, p, err)
 //@   requires[C01] quiet: !#errSent && !#closeOK
-//@   ensures err == nil ==> n == len(p) && n >= 0
+//@   ghostset #reads = old(#reads) + 1
+//@   ghostset #prevChunk = old(#lastChunk)
+//@   ghostset #lastChunk = ite(err == nil, n, 0)
+//@   ghostset #readFailed = (err != nil)
+//@   ghostset #cur = old(#cur) + ite(err == nil, n, 0)
+//@   ensures err == nil ==> n == len(p) && n >= 0 && fresh(p)
+//@   ensures err == nil ==> matches(p, #stream, old(#cur))
 
 //@ iface transport.Transport.Close() (err)
 //@   ghostset closed(self) = true
